@@ -583,7 +583,8 @@ def agg_argbest(members, is_min, limit):
     for (g, a, v), r in reversed(list(zip(ms, rk))):
       val = a if val is None else ite_val(AND(g, EQ(r, p)), a, val)
     items.append((guard, val))
-  return L(items, 'seq', False)
+  # the Python UDF aggregate is never instantiated on an empty input: SQLite returns NULL
+  return L(items, 'seq', NOT(OR(*[g for g, a, v in ms])))
 
 
 def tie_free(members):
